@@ -348,6 +348,24 @@ theorem contiguous_no_switch (s : WState) (id size : Nat) (src : Bytes) (h : s.c
   · simp [isSwitch, Writer.step, stepAppend_cur_same s id size src h]
   · simp [isSwitch, Writer.step, stepEnd_cur_same H s id h]
 
+/-- `flush` leaves the writer's state as it is -/
+theorem flush_state (s : WState) : (Writer.step P H s .flush).1 = s := rfl
+
+/-- a file appended in any number of pieces, **with a flush after each**, is still one contiguous run:
+    no switch is counted however many calls (the memory bound of `weight_writer` does not grow with
+    the number of calls either) -/
+theorem flushed_appends_no_switch (id : Nat) (pieces : List Bytes) : ∀ s : WState, s.cur = id →
+    switches P H s (pieces.flatMap fun p => [Op.append id p.length p, Op.flush]) = 0 := by
+  induction pieces with
+  | nil => intro s _; rfl
+  | cons p ps ih =>
+    intro s h
+    have hc : (Writer.step P H s (.append id p.length p)).1.cur = s.cur := by
+      simp only [Writer.step]; exact stepAppend_cur_same s id p.length p h
+    simp only [List.flatMap_cons, List.cons_append, List.nil_append, switches, flush_state, isSwitch, hc,
+      ne_eq, not_true_eq_false, if_false, Nat.zero_add]
+    exact ih _ (hc.trans h)
+
 /-- at most one switch per `append`/`end` call -/
 theorem switches_le (ops : List Op) : ∀ s, switches P H s ops ≤ ops.length := by
   induction ops with
